@@ -39,8 +39,8 @@ CHECKS = {
    "DESIGN.md section 3 C06"),
  "C07": ("exploration",
    "four monitors on the real meta service under the race detector: marshal/restore fidelity of generated metadata; point-in-time oracle for snapshots taken while commands continue (concurrent Persist); every execute-endpoint body class against a worker child (death + death-on-replay classification); fault histories on in-process 3-node meta clusters with restarts, leader changes and forced log snapshots, judged by acknowledged-change and convergence oracles over canonical forms",
-   "(a) generated metadata values (every section, extremes) must survive marshal -> unmarshal and FSM snapshot -> restore exactly; (b) a snapshot taken at index k and persisted while later commands are applied (also concurrently) must restore to the canonical form recorded at k; (c) bodies posted to /execute on a worker child: every command type x {well-formed, missing / wrong / undecodable extension, unknown type, random}; an accepted body must not kill the node, and a node killed once must not die again on replay (restart lane); (d) seeded histories of metadata commands on real clusters interleaved with node stops/restarts, leader kills, all-node restarts and forced raft snapshots: every acknowledged change must be present on every meta node and in every data node's cache once the cluster is whole again, all canonical forms equal, acknowledged changes visible in the issuing client's cache.",
-   "Joining / removing meta nodes, partitions, raft.db corruption and data-node restarts are not exercised; one sequential client in (d); 'eventually' restated as bounded waits (watchdog expiry = inconclusive); (c) single-server only.",
+   "(a) generated metadata values (every section, extremes) must survive marshal -> unmarshal and FSM snapshot -> restore exactly; (b) a snapshot taken at index k and persisted while later commands are applied (also concurrently) must restore to the canonical form recorded at k; (c) bodies posted to /execute on a worker child: every command type x {well-formed, missing / wrong / undecodable extension, unknown type, random}; an accepted body must not kill the node, and a node killed once must not die again on replay (restart lane); (d) seeded histories of metadata commands on real clusters interleaved with node stops/restarts, leader kills, all-node restarts and forced raft snapshots: every acknowledged change must be present on every meta node and in every data node's cache once the cluster is whole again, all canonical forms equal, acknowledged changes visible in the issuing client's cache; a restart that never finishes opening is a violation when two goroutine dumps show the opening goroutine blocked on a lock at the same stack; (e) a follower leaves and re-joins without a restart and must converge to the leader's metadata.",
+   "Membership changes are exercised only by one leave / re-join mini-history (no restart in between); partitions, raft.db corruption and data-node restarts are not exercised; one sequential client in (d); 'eventually' restated as bounded waits (watchdog expiry = inconclusive); (c) single-server only.",
    "DESIGN.md section 3 C07"),
  "C08": ("exploration",
    "oracle over real PointsWriter.MapShards / WritePointsPrivileged against a real meta service and two meta clients: conservation, independent designation + FNV-64a, independence probes, clock-bracketed retention",
